@@ -581,10 +581,12 @@ theorem mem_capInvOf (cs : List Doc) (e : Entry) (h : e ∈ capInvOf cs) : ∃ d
   obtain ⟨d, hd, he⟩ := List.mem_flatMap.mp h
   exact ⟨d, hd, he⟩
 
-theorem handleUpdate_ok_inv (c : Cfg) (s s' : Store) (tx : Tx) (d : NDoc) (h : handleUpdate c s tx d = .ok s') :
-    ∃ cur ctrls k, currentVersion s d.id tx.prevs = .ok cur ∧ ambControllers c s cur tx = .ok ctrls ∧
+theorem handleUpdate_ok_inv2 (c : Cfg) (s s' : Store) (tx : Tx) (d : NDoc) (h : handleUpdate c s tx d = .ok s') :
+    ∃ cur ctrls k others, currentVersion s d.id tx.prevs = .ok cur ∧ ambControllers c s cur tx = .ok ctrls ∧
       resolvePublicKey c.maxDepth s tx.kid tx.prevs = .ok k ∧
-      findKey c.thumb c.findKeyNilJwkErr (c.thumb k) (capInvOf ctrls) = .ok true ∧ add c.store s (eventOf tx d) = .ok s' := by
+      findKey c.thumb c.findKeyNilJwkErr (c.thumb k) (capInvOf ctrls) = .ok true ∧
+      otherNamed s d.id tx.prevs = .ok others ∧ checkOthers c s tx (c.thumb k) others = .ok true ∧
+      add c.store s (eventOf tx d) = .ok s' := by
   unfold handleUpdate at h
   split at h
   · cases h
@@ -603,7 +605,109 @@ theorem handleUpdate_ok_inv (c : Cfg) (s s' : Store) (tx : Tx) (d : NDoc) (h : h
         · cases h
         · cases h
         · rename_i hf
-          exact ⟨cur, ctrls, k, hcur, hctrls, hk, hf, storeAdd_ok c s s' tx d h⟩
+          split at h
+          · cases h
+          · cases h
+          · rename_i others ho
+            split at h
+            · cases h
+            · cases h
+            · cases h
+            · rename_i hco
+              exact ⟨cur, ctrls, k, others, hcur, hctrls, hk, hf, ho, hco, storeAdd_ok c s s' tx d h⟩
+
+theorem handleUpdate_ok_inv (c : Cfg) (s s' : Store) (tx : Tx) (d : NDoc) (h : handleUpdate c s tx d = .ok s') :
+    ∃ cur ctrls k, currentVersion s d.id tx.prevs = .ok cur ∧ ambControllers c s cur tx = .ok ctrls ∧
+      resolvePublicKey c.maxDepth s tx.kid tx.prevs = .ok k ∧
+      findKey c.thumb c.findKeyNilJwkErr (c.thumb k) (capInvOf ctrls) = .ok true ∧ add c.store s (eventOf tx d) = .ok s' := by
+  obtain ⟨cur, ctrls, k, _, h1, h2, h3, h4, _, _, h5⟩ := handleUpdate_ok_inv2 c s s' tx d h
+  exact ⟨cur, ctrls, k, h1, h2, h3, h4, h5⟩
+
+/-- what `checkOthers` establishes: every listed version authorises the thumbprint -/
+theorem checkOthers_true (c : Cfg) (s : Store) (tx : Tx) (t : String) :
+    ∀ l : List Doc, checkOthers c s tx t l = .ok true → ∀ v ∈ l, authorisedBy c s tx t v = .ok true := by
+  intro l
+  induction l with
+  | nil => intro _ v hv; cases hv
+  | cons x xs ih =>
+    intro h v hv
+    unfold checkOthers at h
+    split at h
+    · rename_i hx
+      rcases List.mem_cons.mp hv with rfl | hv
+      · exact hx
+      · exact ih h v hv
+    · cases h
+    · cases h
+    · cases h
+
+theorem authorisedBy_true (c : Cfg) (s : Store) (tx : Tx) (t : String) (v : Doc) (h : authorisedBy c s tx t v = .ok true) :
+    ∃ ctrls, ambControllers c s v tx = .ok ctrls ∧ findKey c.thumb c.findKeyNilJwkErr t (capInvOf ctrls) = .ok true := by
+  unfold authorisedBy at h
+  split at h
+  · cases h
+  · cases h
+  · rename_i ctrls hc
+    exact ⟨ctrls, hc, h⟩
+
+theorem dedupByHash_mem : ∀ (l : List (Doc × Hash)) (seen : List Hash) (v : Doc),
+    v ∈ dedupByHash l seen → ∃ h, (v, h) ∈ l := by
+  intro l
+  induction l with
+  | nil => intro seen v hv; simp [dedupByHash] at hv
+  | cons p l ih =>
+    intro seen v hv
+    obtain ⟨d, h⟩ := p
+    unfold dedupByHash at hv
+    split at hv
+    · obtain ⟨h', hm⟩ := ih seen v hv
+      exact ⟨h', List.mem_cons_of_mem _ hm⟩
+    · rcases List.mem_cons.mp hv with rfl | hv
+      · exact ⟨h, List.mem_cons_self⟩
+      · obtain ⟨h', hm⟩ := ih _ v hv
+        exact ⟨h', List.mem_cons_of_mem _ hm⟩
+
+theorem namedVersions_mem (s : Store) (id : String) :
+    ∀ (prevs : List Nat) (l : List (Doc × Hash)), namedVersions s id prevs = .ok l →
+      ∀ v h, (v, h) ∈ l → ∃ p ∈ prevs, ∃ m, resolve s id (some { allowDeactivated := true, sourceTx := some p }) = .ok (v, m) := by
+  intro prevs
+  induction prevs with
+  | nil => intro l h v hh hv; simp [namedVersions] at h; subst h; cases hv
+  | cons p ps ih =>
+    intro l h v hh hv
+    unfold namedVersions at h
+    split at h
+    · rename_i d m hr
+      split at h
+      · rename_i l' hl'
+        cases h
+        rcases List.mem_cons.mp hv with heq | hv
+        · cases heq
+          exact ⟨p, List.mem_cons_self, m, hr⟩
+        · obtain ⟨q, hq, m', hm'⟩ := ih l' hl' v hh hv
+          exact ⟨q, List.mem_cons_of_mem _ hq, m', hm'⟩
+      · cases h
+      · cases h
+    · split at h
+      · obtain ⟨q, hq, m', hm'⟩ := ih l h v hh hv
+        exact ⟨q, List.mem_cons_of_mem _ hq, m', hm'⟩
+      · cases h
+    · cases h
+
+/-- every other named version IS a version of the DID that some prev names -/
+theorem otherNamed_mem (s : Store) (id : String) (prevs : List Nat) (others : List Doc)
+    (h : otherNamed s id prevs = .ok others) :
+    ∀ v ∈ others, ∃ p ∈ prevs, ∃ m, resolve s id (some { allowDeactivated := true, sourceTx := some p }) = .ok (v, m) := by
+  intro v hv
+  unfold otherNamed at h
+  split at h
+  · cases h; cases hv
+  · rename_i d0 h0 l hn
+    cases h
+    obtain ⟨hh, hm⟩ := dedupByHash_mem l [h0] v hv
+    exact namedVersions_mem s id prevs _ hn v hh (List.mem_cons_of_mem _ hm)
+  · cases h
+  · cases h
 
 /-! ### the converse: the checks are all there is -/
 
@@ -628,6 +732,8 @@ theorem callback_of_update (c : Cfg) (s s' : Store) (tx : Tx) (d : NDoc) (cur : 
     (hu : tx.embedded = none) (hcur : currentVersion s d.id tx.prevs = .ok cur)
     (hc : ambControllers c s cur tx = .ok ctrls) (hk : resolvePublicKey c.maxDepth s tx.kid tx.prevs = .ok k)
     (hf : findKey c.thumb c.findKeyNilJwkErr (c.thumb k) (capInvOf ctrls) = .ok true)
+    (others : List Doc) (ho : otherNamed s d.id tx.prevs = .ok others)
+    (hco : checkOthers c s tx (c.thumb k) others = .ok true)
     (ha : add c.store s (eventOf tx d) = .ok s') :
     callback c s tx (some d) = .ok s' := by
   unfold callback
@@ -639,6 +745,8 @@ theorem callback_of_update (c : Cfg) (s s' : Store) (tx : Tx) (d : NDoc) (cur : 
   rw [hc]; simp only
   rw [hk]; simp only
   rw [hf]; simp only
+  rw [ho]; simp only
+  rw [hco]; simp only
   exact storeAdd_of_add c s s' tx d ha
 
 /-! ### whole histories -/
